@@ -567,6 +567,31 @@ def campaign(ctx):
                     body(case)
                 except HarnessError:
                     ctx.label("grid_case_refused")
+    # every instance kind against every pair of scalar types in a union (a JSON boolean is no integer, an integer is no boolean,
+    # 1.0 is an integer): all pairs, both orders, anyOf and oneOf, three positions - enumerated completely
+    SCALAR_TYPES = ["integer", "number", "string", "boolean", "null"]
+    KINDS = [True, False, 0, 1, -2, 1.0, 1.5, "1", "a", "true", "", None]
+    for a in SCALAR_TYPES:
+        for b in SCALAR_TYPES:
+            if a == b:
+                continue
+            for wrap in ("anyOf", "oneOf"):
+                sub = {wrap: [{"type": a}, {"type": b}]}
+                for pos in ("top", "property", "items"):
+                    idx += 1
+                    if idx % ctx.nshards != ctx.shard:
+                        continue
+                    if pos == "top":
+                        case = {"schema": sub, "instances": list(KINDS)}
+                    elif pos == "property":
+                        case = {"schema": {"type": "object", "properties": {"p": sub}}, "instances": [{"p": v} for v in KINDS]}
+                    else:
+                        case = {"schema": {"type": "array", "items": sub}, "instances": [[v] for v in KINDS] + [list(KINDS)]}
+                    ctx.ev()
+                    try:
+                        body(case)
+                    except HarnessError:
+                        ctx.label("grid_case_refused")
     ctx.extra["position_grid_exhaustive"] = True
     from .. import core as _core
     import sys as _sys
